@@ -273,11 +273,13 @@ def s5_trigger_threshold_roles(ctx):
     r = RuleResult("S5", "Context::can_merge (whether to merge) compares statistics only with conf.merge.triggers.*, Context::fileids_to_merge (which files) only with conf.merge.thresholds.*; each comparison pairs a statistic with the like-named limit in the selecting direction (dead_bytes > dead_bytes, fragmentation() > fragmentation, file length < small_file)", floor=5)
     prog = ctx.prog
     for fname, group in (("storage::bitcask::Context::can_merge", "triggers"), ("storage::bitcask::Context::fileids_to_merge", "thresholds")):
-        b = prog.one(fname)
-        f = fam_name(b)
+        b0 = prog.one(fname)
+        f = fam_name(b0)
         seen = []
-        for bb in sorted(b.live_blocks()):
-            for st in b.blocks[bb]["stmts"]:
+        # the function and its closures (`stats.iter().any(|entry| …)` is the same comparison)
+        fam_bodies = sorted(prog.families[b0.root], key=lambda x: x.path)
+        for b, bb, st in [(x, bb, st) for x in fam_bodies for bb in sorted(x.live_blocks()) for st in x.blocks[bb]["stmts"]]:
+            if True:
                 if st["k"] != "assign" or st["rv"]["k"] != "bin" or st["rv"]["op"] not in ("Gt", "Lt", "Ge", "Le"):
                     continue
                 if "macro:" in st.get("exp", ""):
@@ -309,17 +311,19 @@ def s5_trigger_threshold_roles(ctx):
                 seen.append(tag)
                 r.add(f, "%s %s conf.merge.%s.%s" % (tag, op, g, nm), good, short_span(st.get("span")), "" if good else "expected %s %s conf.merge.%s.%s" % (tag, want_op, group, tag))
         exp = {"dead_bytes", "fragmentation"} | ({"small_file"} if group == "thresholds" else set())
+        b = b0
         r.add(f, "compares %s" % sorted(exp), set(seen) >= exp, short_span(b.span), "found %s" % sorted(seen))
         # no other conf.merge.* group is read
         other = "thresholds" if group == "triggers" else "triggers"
         bad = []
-        for bb in b.live_blocks():
-            for st in b.blocks[bb]["stmts"]:
-                if st["k"] == "assign":
-                    s = origin_str(b.origin_rvalue(st["rv"]))
-                    if "conf.merge." + other in s:
-                        bad.append(bb)
-        r.add(f, "does not read conf.merge.%s" % other, not bad, where(b, bad[0]) if bad else short_span(b.span))
+        for x in fam_bodies:
+            for bb in x.live_blocks():
+                for st in x.blocks[bb]["stmts"]:
+                    if st["k"] == "assign":
+                        s = origin_str(x.origin_rvalue(st["rv"]))
+                        if "conf.merge." + other in s:
+                            bad.append((x, bb))
+        r.add(f, "does not read conf.merge.%s" % other, not bad, where(bad[0][0], bad[0][1]) if bad else short_span(b.span))
         # the statistic compared belongs to the file being decided (fileids_to_merge: inserted id = entry key)
         if group == "thresholds":
             ins = calls_in([b], "std::collections::BTreeSet::insert", "std::collections::HashSet::insert")
